@@ -827,6 +827,7 @@ class _FunctionInformationCollector(ast.RopeNodeVisitor):
         self.nonlocals_ = OrderedSet()
         self.surrounded_by_loop = 0
         self.loop_depth = 0
+        self.post_conditional = 0
 
     def _read_variable(self, name, lineno):
         if self.start <= lineno <= self.end:
@@ -847,7 +848,8 @@ class _FunctionInformationCollector(ast.RopeNodeVisitor):
                 self.postread.add(name)
         if self.start > lineno:
             self.prewritten.add(name)
-        if self.end < lineno:
+        if self.end < lineno and not self.post_conditional:
+            # only a write that certainly happens hides the extracted value
             self.postwritten.add(name)
 
     def _FunctionDef(self, node):
@@ -944,6 +946,13 @@ class _FunctionInformationCollector(ast.RopeNodeVisitor):
     def _If(self, node):
         self._handle_conditional_node(node)
 
+    def _Try(self, node):
+        # any statement of a try block may be the last one that is executed
+        self._handle_conditional_node(node)
+
+    def _TryStar(self, node):
+        self._handle_conditional_node(node)
+
     def _While(self, node):
         with self._handle_loop_context(node):
             self._handle_conditional_node(node)
@@ -966,12 +975,21 @@ class _FunctionInformationCollector(ast.RopeNodeVisitor):
 
     @contextmanager
     def _handle_conditional_context(self, node):
+        was_conditional = self.conditional
         if self.start <= node.lineno <= self.end:
             self.conditional = True
+        # writes after the region that are inside a conditional statement
+        # (one that follows the region, or one that encloses it and goes on
+        # after it, like the other arm of an `if`) may not happen
+        extends_after = self.end < getattr(node, "end_lineno", node.lineno)
+        if extends_after:
+            self.post_conditional += 1
         try:
             yield
         finally:
-            self.conditional = False
+            self.conditional = was_conditional
+            if extends_after:
+                self.post_conditional -= 1
 
     @contextmanager
     def _handle_loop_context(self, node):
